@@ -482,4 +482,48 @@ theorem cycle_uniq_items (s : Storages) (c : Cycle) (hu : Uniq s.items) : Uniq (
   · exact uniq_nil
 
 
+/-! ### controller cycles (`AcmeUpdate` ; `HAProxyUpdate` with a reload that may fail) -/
+
+/-- the code that exists: the storages after a controller cycle are those of the storages-level cycle … -/
+theorem icycle_st (i : Inst) (c : ICycle) : (icycle i c).1.st = (cycle i.st c.c).1 := rfl
+
+/-- … and so are the queue operations: neither reads `failing`, `owed`, `chg`, `rfail` -/
+theorem icycle_ops (i : Inst) (c : ICycle) : (icycle i c).2.1 = (cycle i.st c.c).2 := rfl
+
+/-- the storages do not depend on the policy (only what is handed to the queue does) -/
+theorem icycleP_st (p : AddPolicy) (i : Inst) (c : ICycle) : (icycleP p i c).1.st = (icycle i c).1.st := by
+  cases p
+  · rfl
+  · simp only [icycle, icycleP, acmeUpdateP]
+    split <;> rfl
+
+theorem icycleP_flags (p : AddPolicy) (i : Inst) (c : ICycle) :
+    (icycleP p i c).1.failing = afterReload i.failing (reloadOf i c) ∧
+    (icycleP p i c).1.owed = afterReload i.owed (reloadOf i c) ∧
+    (icycleP p i c).1.committed = true ∧ (icycleP p i c).2.2 = reloadOf i c := ⟨rfl, rfl, rfl, rfl⟩
+
+/-- projection of a history of controller cycles onto the storages-level history -/
+theorem runI_always_proj (cs : List ICycle) : ∀ (i : Inst),
+    (runI .always i cs).2.map (·.1) = (runCycles i.st (cs.map (·.c))).2 ∧
+    (runI .always i cs).1.st = (runCycles i.st (cs.map (·.c))).1 := by
+  induction cs with
+  | nil => intro i; exact ⟨rfl, rfl⟩
+  | cons c cs ih =>
+    intro i
+    have h := ih (icycleP .always i c).1
+    simp only [runI, runCycles, List.map_cons]
+    exact ⟨by rw [h.1]; rfl, by rw [h.2]; rfl⟩
+
+/-- while nothing fails the `skipWhileFailing` variant is the code that exists -/
+theorem icycleP_skip_not_failing (i : Inst) (c : ICycle) (h : i.failing = false) :
+    icycleP .skipWhileFailing i c = icycleP .always i c := by
+  simp [icycleP, acmeUpdateP, h]
+
+theorem reloadOf_not_failed (i : Inst) (c : ICycle) (h : c.rfail = false) : reloadOf i c ≠ .failed := by
+  unfold reloadOf
+  split
+  · simp [h]
+  · simp
+
+
 end HapVerif.C17
